@@ -188,6 +188,10 @@ func (p *Prog) PkgShort(short string) *packages.Package {
 
 // VTA returns the VTA call graph (refined from CHA), built once.
 func (p *Prog) VTA() *callgraph.Graph {
+	if p.vtaG == nil && os.Getenv("TEXEL_CALLGRAPH") == "cha" {
+		// thorough-tier cross-check: every call-graph rule re-evaluated on the coarser CHA graph
+		p.vtaG = p.CHA()
+	}
 	if p.vtaG == nil {
 		p.vtaG = vta.CallGraph(ssautil.AllFunctions(p.SSA), p.CHA())
 	}
